@@ -1,4 +1,4 @@
-import Bridge.Layout
+import Bridge.Offset
 import Props.C08
 /-!
 # C08 over the code generated from the `iterate_fields_with_offsets` generators
@@ -45,6 +45,13 @@ theorem C08.gen_offset_intrinsic (fs : List Ty) :
     Gen.StructureType.aggregate_bit_length_sets (fs.map tyI) = .ok (offsetIntrinsic false fs) ∧
     (2 ≤ fs.length → tagBits fs ≤ 64 → Gen.UnionType.aggregate_bit_length_sets (fs.map tyI) = .ok (offsetIntrinsic true fs)) :=
   ⟨by simpa [offsetIntrinsic] using aggStruct_ok fs, fun h2 h64 => by simpa [offsetIntrinsic] using aggUnion_ok fs h2 h64⟩
+
+/-- `DataSchemaBuilder.offset` itself (class choice by the union flag, aggregation, the `len(out) > 0` assert) returns the model's
+    `_offset_` expression for the fields declared so far. -/
+theorem C08.gen_offset_builder (fs : List Ty) (h : ∀ f ∈ fs, f.wf = true) :
+    Gen.DataSchemaBuilder.offset false (fs.map tyI) = .ok (offsetIntrinsic false fs) ∧
+    (2 ≤ fs.length → tagBits fs ≤ 64 → Gen.DataSchemaBuilder.offset true (fs.map tyI) = .ok (offsetIntrinsic true fs)) :=
+  ⟨offset_struct_ok fs h, fun h2 h64 => offset_union_ok fs h h2 h64⟩
 
 /-! ### Non-vacuity -/
 example : (Ty.union [.prim 8, .farr (.prim 64) 2]).wf = true ∧ (Op.leaf [0, 4]).wf = true := by decide +kernel
